@@ -213,6 +213,20 @@ CHECKS = {
         note='Object identity and aliasing are CPython runtime behaviour; the model cannot exhibit aliasing introduced in code it '
              'transcribes as a copy - the exhaustive per-site / per-class runs are what catch that. 4 Set-Cookie default sites are known findings.',
         technique='Coq proof over an explicit-store model + generated default-site table; exhaustive per-site and per-class aliasing / observer-history runs on the implementation'),
+    'C14': dict(
+        category='proof',
+        text='Partial by nature. Coq model of the dispatch of Serializable._json_traverse over a universe of Python values producing a '
+             'JSON tree (well-formed by construction, total). Theorems: set-valued fields and plain dicts render identically for every '
+             'iteration / insertion order (insertion sort by the library\'s sort key is invariant under permutation: proved via strong '
+             'sortedness + uniqueness), refuted for the pinned unsorted emission. Tie: 400 / 4000 parsed objects converted to the model\'s '
+             'universe and the rendered model output compared with as_json(); for all 367 classes: as_json succeeds and json.loads accepts '
+             'it, as_markdown returns text, stable on repeated calls, identical for the parse-compose round trip; the whole corpus '
+             'serialised under several PYTHONHASHSEED values and in shuffled order must be byte-identical; a DNSKEY flag set built in six '
+             'insertion orders must serialise identically.',
+        design_ref='DESIGN.md section 6, C14',
+        note='Hash order, float repr and json.dumps rendering are runtime behaviour (seed sweep only); the Markdown dispatch is not modelled '
+             '(implementation-only predicates). 4 CSP classes whose as_markdown returns an object are known findings.',
+        technique='Coq proof (order-independence of the serialiser model) + model-vs-implementation comparison via vm_compute + hash-seed / insertion-order sweep'),
 }
 
 NOT_YET = {}
